@@ -35,22 +35,28 @@ PinnedDirty == [ty \in PooledTypes |->
       [] ty = "FunctionCall" -> {"OrderBy", "WithinGroup"}
       [] OTHER -> {}]
 
-VARIABLES ty, fld, node,        \* cycle machine: the node under test: [where, dirty (set of non-zero fields)]
-          owner, dirtyOf, held, version, nextId, steps, hist
-vars == <<ty, fld, node, owner, dirtyOf, held, version, nextId, steps, hist>>
+VARIABLES ty, fld, size, node,  \* cycle machine: the node under test: [where, dirty (set of non-zero fields)]
+          owner, dirtyOf, held, version, nextId, steps, hist,
+          dup                   \* history machine: nodes with a SECOND entry in their pool (released twice)
+vars == <<ty, fld, size, node, owner, dirtyOf, held, version, nextId, steps, hist, dup>>
+
+\* how much content the populated field holds: a couple of elements, more than any small retention threshold
+\* (64), more than the release work-queue bound (1000)
+Sizes == {"few", "many", "huge"}
 
 \* ---- cycle machine ---------------------------------------------------------------------------------
 CInit == /\ Machine = "cycle"
          /\ ty \in PooledTypes /\ fld \in FieldsOf(ty)
+         /\ size \in Sizes /\ (size # "few" => fld \in SliceFieldsOf(ty))
          /\ node = [where |-> "fresh", dirty |-> {}]
-         /\ owner = <<>> /\ dirtyOf = <<>> /\ held = <<>> /\ version = <<>> /\ nextId = 0 /\ steps = 0 /\ hist = <<>>
-Populate == /\ node.where = "fresh" /\ node' = [where |-> "client", dirty |-> {fld}] /\ UNCHANGED <<ty, fld, owner, dirtyOf, held, version, nextId, steps, hist>>
+         /\ owner = <<>> /\ dirtyOf = <<>> /\ held = <<>> /\ version = <<>> /\ nextId = 0 /\ steps = 0 /\ hist = <<>> /\ dup = {}
+Populate == /\ node.where = "fresh" /\ node' = [where |-> "client", dirty |-> {fld}] /\ UNCHANGED <<ty, fld, size, owner, dirtyOf, held, version, nextId, steps, hist, dup>>
 CPut == /\ node.where = "client" /\ node.dirty # {}
         /\ node' = [where |-> "pool", dirty |-> IF Shape = "pinned" THEN node.dirty \cap PinnedDirty[ty] ELSE {}]
-        /\ UNCHANGED <<ty, fld, owner, dirtyOf, held, version, nextId, steps, hist>>
+        /\ UNCHANGED <<ty, fld, size, owner, dirtyOf, held, version, nextId, steps, hist, dup>>
 CGet == /\ node.where = "pool" /\ node' = [node EXCEPT !.where = "got"]
-        /\ (Emit => PrintT(ToJson([type |-> ty, field |-> fld])))
-        /\ UNCHANGED <<ty, fld, owner, dirtyOf, held, version, nextId, steps, hist>>
+        /\ (Emit => PrintT(ToJson([type |-> ty, field |-> fld, size |-> size])))
+        /\ UNCHANGED <<ty, fld, size, owner, dirtyOf, held, version, nextId, steps, hist, dup>>
 CNext == Populate \/ CPut \/ CGet
 CleanAfterGet == node.where = "got" => node.dirty = {}
 CleanInPoolC == node.where = "pool" => node.dirty = {}
@@ -61,33 +67,40 @@ CleanInPoolC == node.where = "pool" => node.dirty = {}
 Kinds == {"select", "insert", "tuple"}
 Ids == 1..nextId
 HInit == /\ Machine = "history"
-         /\ ty = "none" /\ fld = "none" /\ node = [where |-> "none", dirty |-> {}]
-         /\ owner = <<>> /\ dirtyOf = <<>> /\ nextId = 0 /\ steps = 0 /\ hist = <<>>
+         /\ ty = "none" /\ fld = "none" /\ size = "few" /\ node = [where |-> "none", dirty |-> {}]
+         /\ owner = <<>> /\ dirtyOf = <<>> /\ nextId = 0 /\ steps = 0 /\ hist = <<>> /\ dup = {}
          /\ held = [s \in Slots |-> {}] /\ version = [s \in Slots |-> 0]
 
 Log(e) == /\ hist' = Append(hist, e) /\ steps' = steps + 1
           /\ (Emit => PrintT(ToJson(Append(hist, e))))
 
 Pooled == {n \in Ids : owner[n] = "pool"}
-\* parse a statement into an empty slot; it uses two new nodes and may reuse any pooled ones (the parser draws
-\* tuple/array nodes from the pools)
+\* nodes a Get can hand out: those resting in a pool, and those with a second (stale) pool entry
+Drawable == Pooled \cup dup
+\* parse a statement into an empty slot; it uses two new nodes and may reuse a drawable one (the parser draws
+\* the tree container and tuple/array nodes from the pools)
 ParseInto(s, k, reuse) ==
-    /\ steps < MaxSteps /\ held[s] = {} /\ reuse \subseteq Pooled /\ Cardinality(reuse) <= 1
+    /\ steps < MaxSteps /\ held[s] = {} /\ reuse \subseteq Drawable /\ Cardinality(reuse) <= 1
     /\ LET a == nextId + 1  b == nextId + 2 IN
        /\ nextId' = nextId + 2
-       /\ owner' = [n \in 1..(nextId + 2) |-> IF n \in {a, b} \/ n \in reuse THEN s ELSE owner[n]]
+       \* a node drawn through a stale entry keeps its first owner: two owners now reach it
+       /\ owner' = [n \in 1..(nextId + 2) |-> IF n \in {a, b} \/ (n \in reuse /\ n \in Pooled) THEN s ELSE owner[n]]
        /\ dirtyOf' = [n \in 1..(nextId + 2) |-> IF n \in {a, b} \/ n \in reuse THEN TRUE ELSE dirtyOf[n]]
        /\ held' = [held EXCEPT ![s] = {a, b} \cup reuse]
-       /\ version' = [version EXCEPT ![s] = 0]
-    /\ UNCHANGED <<ty, fld, node>>
+       \* writing the new statement into a node another slot still holds is a write into that slot's tree
+       /\ version' = [t \in Slots |-> IF t = s THEN 0 ELSE IF held[t] \cap reuse # {} THEN version[t] + 1 ELSE version[t]]
+       /\ dup' = dup \ (reuse \ Pooled)
+    /\ UNCHANGED <<ty, fld, size, node>>
     /\ Log([op |-> "parse", slot |-> s, kind |-> k])
 
 Release(s) ==
     /\ steps < MaxSteps /\ held[s] # {}
-    /\ owner' = [n \in Ids |-> IF n \in held[s] THEN "pool" ELSE owner[n]]
+    /\ owner' = [n \in Ids |-> IF n \in held[s] /\ owner[n] = s THEN "pool" ELSE owner[n]]
     /\ dirtyOf' = [n \in Ids |-> IF n \in held[s] THEN (Shape = "pinned") ELSE dirtyOf[n]]
+    \* releasing cleans the nodes: a node that another slot also holds is emptied under it
+    /\ version' = [t \in Slots |-> IF t # s /\ held[t] \cap held[s] # {} THEN version[t] + 1 ELSE version[t]]
     /\ held' = [held EXCEPT ![s] = {}]
-    /\ UNCHANGED <<ty, fld, node, version, nextId>>
+    /\ UNCHANGED <<ty, fld, size, node, nextId, dup>>
     /\ Log([op |-> "release", slot |-> s])
 
 \* a client takes a node from a pool and writes into it
@@ -97,22 +110,36 @@ ClientGet(n) ==
     /\ dirtyOf' = [dirtyOf EXCEPT ![n] = TRUE]
     \* writing into n is a write into every tree that still reaches n
     /\ version' = [s \in Slots |-> IF n \in held[s] THEN version[s] + 1 ELSE version[s]]
-    /\ UNCHANGED <<ty, fld, node, held, nextId>>
+    /\ UNCHANGED <<ty, fld, size, node, held, nextId, dup>>
     /\ Log([op |-> "clientget"])
 
 \* a failing parse releases what it built
 ParseFail(k) ==
     /\ steps < MaxSteps
-    /\ UNCHANGED <<ty, fld, node, owner, dirtyOf, held, version, nextId>>
+    /\ UNCHANGED <<ty, fld, size, node, owner, dirtyOf, held, version, nextId, dup>>
     /\ Log([op |-> "parsefail", kind |-> k])
 
-HNext == \/ \E s \in Slots, k \in Kinds, r \in SUBSET Pooled : ParseInto(s, k, r)
+\* a context-aware parse whose context fires while a statement is being parsed: it releases its container and
+\* reports the cancellation.  Shape "doublefree": the container is released on two code paths.
+ParseCancel(k) ==
+    /\ steps < MaxSteps
+    /\ LET c == nextId + 1 IN
+       /\ nextId' = nextId + 1
+       /\ owner' = [n \in 1..(nextId + 1) |-> IF n = c THEN "pool" ELSE owner[n]]
+       /\ dirtyOf' = [n \in 1..(nextId + 1) |-> IF n = c THEN (Shape = "pinned") ELSE dirtyOf[n]]
+       /\ dup' = IF Shape = "doublefree" THEN dup \cup {c} ELSE dup
+    /\ UNCHANGED <<ty, fld, size, node, held, version>>
+    /\ Log([op |-> "parsecancel", kind |-> k])
+
+HNext == \/ \E s \in Slots, k \in Kinds, r \in SUBSET Drawable : ParseInto(s, k, r)
          \/ \E s \in Slots : Release(s)
          \/ \E n \in Ids : ClientGet(n)
          \/ \E k \in Kinds : ParseFail(k)
+         \/ \E k \in Kinds : ParseCancel(k)
 
 NoAliasing == /\ \A s \in Slots : \A n \in held[s] : owner[n] = s
               /\ \A s1, s2 \in Slots : s1 # s2 => held[s1] \cap held[s2] = {}
+              /\ dup = {}
 CleanInPoolH == \A n \in Ids : owner[n] = "pool" => ~dirtyOf[n]
 SnapshotStable == [][\A s \in Slots : (held[s] # {} /\ held'[s] = held[s]) => version'[s] = version[s]]_vars
 
